@@ -11,6 +11,15 @@ variable {α : Type} (I : Interp α) (ρ : Nat → Tensor α)
 theorem eval_proper {t : Term} (h : proper t = true) : ∃ x, eval I ρ t = [x] := by
   cases t <;> simp [proper] at h <;> simp [eval]
 
+theorem erase_eval : ∀ t : Term, eval I ρ t.erase = eval I ρ t := by
+  intro t
+  induction t with
+  | leaf id ann s => rfl
+  | boolc b => rfl
+  | nil => rfl
+  | cons t ts iht ihts => simp [erase, eval, iht, ihts]
+  | app h ann args ih => simp [erase, eval, ih]
+
 theorem eval_cons_nil (a : Term) : eval I ρ (.cons a .nil) = eval I ρ a := by
   simp [eval]
 
